@@ -24,6 +24,29 @@ def shrink(xs, k, real_fn):
     return xs
 
 
+def run_history(nn, pre, xs, k):
+    """other searches first (a prelude call that raises is part of the history), then the measured self-search"""
+    for kind, other, kk, comp in pre:
+        try:
+            if kind == "two-q":
+                nn.symdel(other, max_edits=kk, seqs2=xs)
+            elif kind == "two-r":
+                nn.symdel(xs, max_edits=kk, seqs2=other)
+            elif kind == "db":
+                nn.SymdelDB(other, max_edits=kk).lookup(xs, max_edits=kk)
+            elif kind == "self":
+                nn.symdel(other, max_edits=kk)
+            elif kind == "ham":
+                nn.symdel(xs + other, max_edits=kk, custom_distance="hamming")
+            elif kind == "hash":
+                nn.hash_based([x for x in xs + other if set(x) <= set(gen.AA)], max_edits=min(kk, 2))
+            elif kind == "kd":
+                nn.kdtree([x for x in xs + other if set(x) <= set(gen.AA)], max_edits=kk, compression=comp)
+        except Exception:  # noqa
+            pass
+    return nn.symdel(xs, max_edits=k)
+
+
 def run(chk):
     nn = search.nn()
     chk.trusted_base = TRUSTED
@@ -73,11 +96,11 @@ def run(chk):
     # ---- API level
     b = search.Batch(chk, "corr:symdel~symdelSelf")
 
-    def add(label, xs, k, model=True, fn=None):
+    def add(label, xs, k, model=True, fn=None, extra=None):
         fn = fn or (lambda xs, k: nn.symdel(xs, max_edits=k))
         mop = {"op": "symdel_self", "xs": xs, "k": k, "mode": "lev"} if model else None
         sop = {"op": "brute_self", "xs": xs, "k": k, "mode": "lev"}
-        b.add(label, lambda: fn(xs, k), mop, sop, {"xs": xs, "k": k, "n": len(xs)})
+        b.add(label, lambda: fn(xs, k), mop, sop, {"xs": xs, "k": k, "n": len(xs), **(extra or {})})
 
     nnf = lambda xs, k: nn.nearest_neighbor(xs, max_edits=k)  # noqa
     nnpos = lambda xs, k: nn.nearest_neighbor(xs, k)  # noqa
@@ -109,6 +132,22 @@ def run(chk):
         base = rng.choice([["CASSF"], ["A"], ["CASSF", "CASSL"], ["AC", "AD", "A"], gen.sub_collection(rng, pools[0][1], 3)])
         xs = [rng.choice(base) for _ in range(rng.choice([6, 8, 15, 30, 60]))]
         add("symdel|clone-expansion", xs, rng.choice([1, 1, 2]), model=len(xs) <= 15)
+    # histories: the self-search runs AFTER other searches in the same process that share sequences with it
+    # (two-collection queries in both roles, other radii, other engines, other modes): the answer is that of a first call
+    def prelude_fn(pre):
+        return lambda xs, k: run_history(nn, pre, xs, k)
+    for _ in range(40 if not thorough else 400):
+        alpha, pool = rng.choice(pools)
+        xs = gen.sub_collection(rng, pool, rng.randint(2, 10)) if rng.random() < 0.6 else gen.repertoire(rng, rng.randint(3, 12))
+        k = rng.randint(1, 3)
+        pre = []
+        for _ in range(rng.randint(1, 3)):
+            other = gen.sub_collection(rng, pool, rng.randint(1, 6)) if rng.random() < 0.5 else rng.sample(xs, rng.randint(1, len(xs)))
+            if rng.random() < 0.5:
+                other = other + gen.repertoire(rng, 2)
+            pre.append((rng.choice(["two-q", "two-q", "two-r", "db", "self", "ham", "hash", "kd"]), other, rng.choice([k, k, rng.randint(1, 3)]),
+                        rng.choice([1, 2, 5])))
+        add("symdel|after-history", xs, k, model=False, fn=prelude_fn(pre), extra={"history": [list(h) for h in pre]})
     # repertoires (oracle only for the big ones)
     for _ in range(25 if not thorough else 150):
         n = rng.choice([1, 2, 5, 20, 60, 120] if not thorough else [5, 50, 200, 600])
@@ -121,6 +160,9 @@ def run(chk):
 
     def on_violation(idx, case, rep):
         meta = case[4]
+        if "history" in meta:       # the failure needs the earlier calls: replayed as a history, not shrunk
+            rep["replay_note"] = "run the calls in meta.history first (see run_history), then symdel(xs, max_edits=k)"
+            return rep
         try:
             small = shrink(meta["xs"], meta["k"], lambda xs, k: nn.symdel(xs, max_edits=k))
             rep["minimal_input"] = {"xs": small, "k": meta["k"]}
@@ -139,7 +181,10 @@ def replay(path):
         print(json.dumps(r, indent=1)[:3000])
         return 0
     xs, k = inp["xs"], inp["k"]
-    real = core.call_real(lambda: core.canon_trips(nn.symdel(xs, max_edits=k)))
+    hist = [tuple(h) for h in inp.get("history", [])]
+    if hist:
+        print("history:", hist)
+    real = core.call_real(lambda: core.canon_trips(run_history(nn, hist, xs, k)))
     sp = core.run_driver([{"op": "brute_self", "xs": xs, "k": k, "mode": "lev"},
                           {"op": "symdel_self", "xs": xs, "k": k, "mode": "lev"}])
     print("input:", xs, "k =", k)
